@@ -10,8 +10,9 @@ and the oracle is t0 == t1 == t2.  The decoration (timestamp, system from log_le
 log_namespace / log_system) is compared separately between the original and the JSON-loaded event.
 
 Guards (premise of the statement): format strings are generated type-aware, so that the ORIGINAL
-event always formats (a t0 that is the "Unable to format event" fallback is counted as
-premise_failed and not judged); values have deterministic str/repr/format (no default object reprs,
+event always formats (only when NONE of the three texts formats is the case counted as
+premise_failed and not judged; an original that falls back to "Unable to format event" while the
+flattened / JSON form formats is a mismatch: original-unformattable-flattened-formats); values have deterministic str/repr/format (no default object reprs,
 callables are always called, never printed); no Failures (their traceback text is not part of the
 statement).
 
@@ -26,7 +27,9 @@ LEVEL = "exploration"
 ENGINE = "core"
 TECHNIQUE = "runtime monitoring: differential oracle original vs flattened(+poisoned originals) vs JSON round trip"
 RULE = ("random type-aware format strings over the event's own keys: attribute/index paths through nested "
-        "objects, dicts, lists; () calls at the end and in the middle of a path; conversions !r !s !a; format "
+        "objects, dicts (str and int keys), lists, tuples - arbitrary interleavings up to 4 steps over purpose-built "
+        "nested structures; () calls at the end of any such path (after attribute-after-index, index-after-attribute "
+        "...) and in the middle of a path; conversions !r !s !a; format "
         "specs valid for the value's type (width, precision, type codes, fill/align, nested {w}); repeated "
         "fields; literal braces; values: ints, floats, strs (non-ASCII, braces, surrogates), bytes, None, "
         "bools, nested containers, objects with deterministic __str__/__repr__/__format__, pure callables.  "
@@ -36,7 +39,7 @@ ASSUMPTIONS = ["trusted base: the recipe->object builder and the Poison class of
 SHARDS = {"quick": 4, "thorough": 16}
 FLOORS = {"compared_flat": 5000, "compared_json": 5000, "compared_decoration": 5000, "fields_total": 10000,
           "fields_repeated": 500, "fields_with_path": 3000, "fields_end_call": 300, "poisoned_values": 5000,
-          "agree": 3000, "repeated_counter_calls": 50}
+          "agree": 3000, "repeated_counter_calls": 50, "fields_terminal_call_after_index_path": 800, "fields_path_3plus": 1500}
 READY = True
 
 
@@ -120,7 +123,7 @@ INTS = [0, 1, -1, 7, 42, -42, 255, 65536, 10 ** 12, 10 ** 30]
 FLOATS = ["3.14159", "-0.5", "2.0", "1e10", "1e-07", "123456.789", "nan", "inf", "0.1"]
 STRS = ["", "text", "caf\xe9", "中文", "{", "}", "{x}", "a b", "li\nne", "\ud800", "tab\t", "q'\"", "0", "x" * 20]
 ATTRS = ["attr", "x", "name", "sub", "val", "m", "get"]
-DKEYS = ["k", "key", "a1", "x"]
+DKEYS = ["k", "key", "a1", "x", "main-table", "a b"]
 
 
 def g_value(rng, depth=0, inside=False):
@@ -159,9 +162,42 @@ def g_value(rng, depth=0, inside=False):
     return ["obj", rng.choice(["o", "p", "q\xfc"]), rng.choice(["plain", "plain", "custom"]), attrs]
 
 
+def g_struct(rng, depth):
+    """Nested structure for long mixed paths: lists / tuples / dicts (str and int keys) of objects whose
+    attributes are again structures; every object has a called attribute, so that a terminal () can follow
+    an index step, attribute-after-index, index-after-attribute ...  Containers hold objects only
+    (deterministic repr), never bare callables."""
+    def leafval():
+        return rng.choice([["int", rng.choice(INTS)], ["str", rng.choice(STRS)], ["float", rng.choice(FLOATS)], ["none"]])
+
+    def obj(d):
+        attrs = [["describe", ["call", leafval()]], ["name", leafval()]]
+        if d > 0:
+            for a in rng.sample(["sub", "items", "get", "val"], rng.randrange(1, 3)):
+                v = g_struct(rng, d - 1)
+                attrs.append([a, ["call", v] if rng.random() < 0.2 else v])   # a called attribute mid-path
+        if rng.random() < 0.15:
+            attrs.append(["m", ["counter", ["int", 0]]])
+        rng.shuffle(attrs)
+        return ["obj", rng.choice(["o", "p", "q\xfc"]), rng.choice(["plain", "plain", "custom"]), attrs]
+
+    if depth <= 0:
+        return obj(0)
+    k = rng.randrange(4)
+    if k == 0:
+        return ["list", [g_struct(rng, depth - 1) for _ in range(rng.randrange(1, 4))]]
+    if k == 1:
+        return ["tuple", [g_struct(rng, depth - 1) for _ in range(rng.randrange(1, 3))]]
+    if k == 2:
+        keys = rng.sample(DKEYS, rng.randrange(1, 3)) + ([rng.choice([0, 5, 12])] if rng.random() < 0.5 else [])
+        return ["dict", [[key, g_struct(rng, depth - 1)] for key in keys]]
+    return obj(depth)
+
+
 def walk(rng, r, maxsteps):
     """Random path from recipe r: returns (path text, final recipe, n_calls, midcall?)."""
     path = ""
+    shape = ""   # A attribute step, I index step, C call
     ncalls = 0
     last_was_call_at = None
     steps = 0
@@ -169,6 +205,7 @@ def walk(rng, r, maxsteps):
         k = r[0]
         if k in ("call", "counter"):  # a callable must be called (its str is not deterministic)
             path += "()"
+            shape += "C"
             ncalls += 1
             last_was_call_at = len(path)
             r = r[1]
@@ -179,19 +216,22 @@ def walk(rng, r, maxsteps):
         if k == "obj" and r[3]:
             a, v = rng.choice(r[3])
             path += "." + a
+            shape += "A"
             r = v
         elif k == "dict" and r[1]:
             a, v = rng.choice(r[1])
             path += "[%s]" % a
+            shape += "I"
             r = v
         elif k in ("list", "tuple") and r[1]:
             i = rng.randrange(len(r[1]))
             path += "[%d]" % i
+            shape += "I"
             r = r[1][i]
         else:
             break
     mid = ncalls > 0 and (ncalls > 1 or last_was_call_at != len(path))
-    return path, r, ncalls, mid
+    return path, r, ncalls, mid, shape
 
 
 STR_SPECS = ["", "", ">10", "<8", "^9", "*^12", ".3", "10.2", "s", ">{w}", "^{w}.{p}", ".{p}", "{w}"]
@@ -203,7 +243,8 @@ ANY_SPECS = ["", "anything", "%Y-%m", ">10", "{w}", "a b", "!", "05d"]
 def g_field(rng, keys, recipes):
     """-> dict(text=..., feats={...}, variants) ; text is what goes between the braces."""
     key = rng.choice(keys)
-    path, final, ncalls, mid = walk(rng, recipes[key], rng.choice([0, 0, 1, 1, 2, 3]))
+    deep = key in ("peers", "table")
+    path, final, ncalls, mid, shape = walk(rng, recipes[key], rng.choice([1, 2, 2, 3, 3, 4, 4]) if deep else rng.choice([0, 0, 1, 1, 2, 3, 4]))
     conv = rng.choice(["", "", "", "", "", "", "r", "r", "s", "a"])
     plain = rng.random() < 0.5  # half of the fields carry no spec (the known spec defect floods otherwise)
     k = final[0]
@@ -232,7 +273,7 @@ def g_field(rng, keys, recipes):
         spec = ""
         conv = "" if conv == "a" else conv
     custom = (k == "obj" and final[2] == "custom" and not conv)
-    return {"name": key + path, "counter": is_counter, "conv": conv, "spec": spec, "mid": mid, "ncalls": ncalls, "custom": custom, "haspath": bool(path)}
+    return {"name": key + path, "shape": shape, "counter": is_counter, "conv": conv, "spec": spec, "mid": mid, "ncalls": ncalls, "custom": custom, "haspath": bool(path)}
 
 
 def ftext(f, conv=None, spec=None):
@@ -247,6 +288,10 @@ LITS = ["", "", " ", "text ", "{{", "}}", "\xe9", "\n", ": ", "%s", "{{}}", "a="
 def g_case(rng):
     keys = rng.sample(["a", "b", "c", "obj", "f", "item", "d\xe9"], rng.randrange(1, 5))
     recipes = {k: g_value(rng) for k in keys}
+    for k in ("peers", "table"):
+        if rng.random() < 0.35:
+            keys.append(k)
+            recipes[k] = g_struct(rng, rng.randrange(1, 4))
     recipes["w"] = ["int", rng.choice([1, 6, 14])]
     recipes["p"] = ["int", rng.choice([0, 1, 3])]
     nfields = rng.choice([1, 1, 2, 2, 3, 4, 6])
@@ -381,10 +426,27 @@ def explain_field(case, f):
 def check_case(ctx, case, idx=None):
     fmt = render(case)
     t0, t1, t2 = three(case, fmt, ctx)
-    if t0.startswith(("Unable to format event", "MESSAGE LOST", "RAISED")):
-        ctx.count("premise_failed")
-        if ctx.counters["premise_failed"] <= 3:
-            ctx.seen("premise_failed_examples", fmt[:80] + " => " + t0[-80:])
+    bad = ("Unable to format event", "MESSAGE LOST", "RAISED")
+    if t0.startswith(bad):
+        if t1.startswith(bad) and t2.startswith(bad):
+            # none of the three formats: the generated event is outside the premise (generator bug)
+            ctx.count("premise_failed")
+            if ctx.counters["premise_failed"] <= 3:
+                ctx.seen("premise_failed_examples", fmt[:80] + " => " + t0[-80:])
+            return
+        # the flattened / JSON form formats but the original does not: the texts differ
+        culprits = []
+        for f in case["fields"]:
+            a, b, c = three(case, ftext(f))
+            if a.startswith(bad) and not (b.startswith(bad) and c.startswith(bad)):
+                culprits.append({"field": ftext(f), "path_shape": f.get("shape"), "original": a[-160:], "flattened": b[:80], "json": c[:80]})
+        ctx.count("compared_flat")
+        ctx.count("compared_json")
+        ctx.count("disagree")
+        ctx.violation("original-unformattable-flattened-formats",
+                      "the original event does not format (generic 'Unable to format event' text) although its flattened / JSON form does",
+                      {"case": idx, "format": fmt, "values": case["values"], "expected(original)": t0[-300:], "observed(flattened)": t1[:300],
+                       "observed(json)": t2[:300], "culprit_fields": culprits[:4], "recipe": case})
         return
     ctx.count("compared_flat")
     ctx.count("compared_json")
@@ -396,6 +458,13 @@ def check_case(ctx, case, idx=None):
         if kind == "field":
             uses[x] = uses.get(x, 0) + 1
     for i, f in enumerate(case["fields"]):
+        sh = f.get("shape", "")
+        if sh:
+            ctx.seen("path_shapes", sh)
+        if sh.endswith("C") and sh.count("C") == 1 and "I" in sh:
+            ctx.count("fields_terminal_call_after_index_path")   # {a[0].m()}, {a.x[k].m()}, {a[k][0].m()} ...
+        if len(sh.replace("C", "")) >= 3:
+            ctx.count("fields_path_3plus")
         if f.get("counter") and uses.get(i, 0) > 1:
             ctx.count("repeated_counter_calls")
         if f["haspath"]:
